@@ -197,12 +197,12 @@ class ArrView:
         c = self._s.heap[self.arr.base.id]
         if self.arr.base.kind != 'sym':
             raise Unsupported("raw array of concrete-shape base")
-        return c['val']
+        return st.content_arrays(self.arr.base, c)[0]
 
     @property
     def T(self):
         c = self._s.heap[self.arr.base.id]
-        t = c['tag']
+        t = st.content_arrays(self.arr.base, c)[1]
         if t is None:
             t = z3.K(int_sort(), z3.IntVal(FIN))
         return t
@@ -213,9 +213,26 @@ class ArrView:
         return d[1]
 
     @property
+    def meta(self):
+        return self.arr.base.meta
+
+    @property
     def stride(self):
         d = self.arr.rng_dims()[0]
         return d[2]
+
+    def sub(self, lo, n):
+        """the sub-view [lo : lo+n] (no clamping; the caller knows it is in range)"""
+        d = self.arr.rng_dims()[0]
+        dims = []
+        done = False
+        for x in self.arr.dims:
+            if x[0] == 'rng' and not done:
+                dims.append(('rng', d[1] + d[2] * to_int(lo), d[2], to_int(n)))
+                done = True
+            else:
+                dims.append(x)
+        return ArrView(SArr(self.arr.base, dims), self._s)
 
     def cells(self):
         """python list of cells for concrete-length views"""
@@ -288,13 +305,18 @@ class Ctx:
 # ------------------------------------------------------------------ contracts
 
 class Loop:
-    def __init__(self, invariant=None, decreases=None, var=None, modifies=None, unroll=False, ghost=None):
+    def __init__(self, invariant=None, decreases=None, var=None, modifies=None, unroll=False, ghost=None,
+                 prange_writes=(), hints=None, keep_using=None):
         self.invariant = invariant      # callable(ctx) -> list[(label, SBool)] | SBool
         self.decreases = decreases      # callable(ctx) -> SInt   (while loops)
         self.var = var                  # loop variable name (sanity check of the binding)
         self.modifies = modifies        # optional override: names of arrays / locals havocked
         self.unroll = unroll
         self.ghost = ghost              # optional dict of ghost hooks
+        self.prange_writes = tuple(prange_writes)   # arrays a prange iteration i may write, at [i] only
+        self.keep_using = keep_using    # {invariant label: [fact labels]} explicit hypotheses for its inv-keep
+        self.hints = hints              # callable(ctx)->clauses: ghost assertions at the end of the body,
+                                        # each proved (from the earlier ones) and then available to inv-keep
 
 
 class Contract:
@@ -303,7 +325,7 @@ class Contract:
     def __init__(self, target, params, returns=None, requires=None, ensures=None, modifies=(),
                  loops=None, int_mode='math', merge=True, configs=None, trusted=False, note='',
                  raises=None, pure=True, inline=False, witnesses=None, props=(), self_rec=None,
-                 nothrow=True, cut_asserts=None, path_split=False, lemmas_used=(), flags=()):
+                 nothrow=True, cut_asserts=None, path_split=False, lemmas_used=(), flags=(), fuel=1, solver_opts=None, gen=None):
         self.target = target
         self.params = params if callable(params) else list(params)   # [(name, Sort)] or callable(config)->list
         self.returns = returns              # Sort or callable(ctx)->Sort
@@ -323,6 +345,9 @@ class Contract:
         self.path_split = path_split
         self.lemmas_used = tuple(lemmas_used)
         self.flags = set(flags)
+        self.fuel = fuel
+        self.solver_opts = solver_opts or {}
+        self.gen = gen                      # optional input generator for the witness search: gen(rng, config)->typed args
 
     def param_list(self, config=None):
         if callable(self.params):
@@ -407,8 +432,9 @@ class RecSpec:
     callable building the definition from SInt/SFloat/... arguments; result kind in
     {'int','real','bool','float'} ('float' = extended real = two functions)."""
 
-    def __init__(self, name, arg_sorts, result, body):
+    def __init__(self, name, arg_sorts, result, body, quantified=False):
         self.name = name
+        self.quantified = quantified    # add the universally quantified definition instead of ground instances
         self.arg_sorts = arg_sorts      # list of z3 sorts or 'int'
         self.result = result
         zs = [int_sort() if isinstance(s, str) and s == 'int' else s for s in arg_sorts]
@@ -444,6 +470,15 @@ class RecSpec:
             return [self.f(*zargs) == to_float(r).val]
         return [self.f(*zargs) == to_bool(r).z()]
 
+    def axiom(self):
+        """forall args. f(args) == body(args)   (used for non-recursive 'quantified' specs)"""
+        vs = [z3.Const(fresh_name(self.name + '_q'), s) for s in self._zs]
+        eqs = self.unfold(vs)
+        if self.result == 'float':
+            pats = [self.f_val(*vs), self.f_tag(*vs)]
+            return [z3.ForAll(vs, eqs[0], patterns=[pats[0]]), z3.ForAll(vs, eqs[1], patterns=[pats[1]])]
+        return [z3.ForAll(vs, eqs[0], patterns=[self.f(*vs)])]
+
     def __call__(self, *args):
         zargs = []
         for a in args:
@@ -471,6 +506,7 @@ def spec_unfoldings(terms, fuel=1):
     seen = set()
     out = []
     frontier = list(terms)
+    qdone = set()
     for _ in range(fuel):
         apps = []
         stack = list(frontier)
@@ -487,7 +523,15 @@ def spec_unfoldings(terms, fuel=1):
             if z3.is_app(t):
                 d = t.decl()
                 if d.kind() == z3.Z3_OP_UNINTERPRETED and d.name() in SPECS and t.num_args() > 0:
-                    apps.append(t)
+                    sp = SPECS[d.name()]
+                    if sp.quantified:
+                        if sp.name not in qdone:
+                            qdone.add(sp.name)
+                            ax = sp.axiom()
+                            out.extend(ax)
+                            stack.extend(ax)
+                    else:
+                        apps.append(t)
                 stack.extend(t.children())
         new = []
         for t in apps:
@@ -532,7 +576,7 @@ class Lemma:
     (use(lemma, **bindings)) or of itself with a smaller measure (induction hypothesis)."""
 
     def __init__(self, name, vars, requires=None, ensures=None, proof=None, decreases=None,
-                 props=(), note='', cases=None, int_mode='math', fuel=1, sat_check=True, tactic=None):
+                 props=(), note='', cases=None, int_mode='math', fuel=1, sat_check=True, tactic=None, solver_opts=None):
         self.name = name
         self.vars = vars
         self.requires = requires
@@ -546,6 +590,7 @@ class Lemma:
         self.fuel = fuel
         self.sat_check = sat_check
         self.tactic = tactic
+        self.solver_opts = solver_opts or {}
 
     def make_ns(self, prefix=''):
         ns = {}
